@@ -21,7 +21,8 @@ ENGINES = ["E0 core", "E1 tables", "E5 siblings"]
 TECHNIQUE = "literal-table folding checked against unicodedata/html.entities; regex syntax-tree comparison; sibling wiring facts (ast)"
 CLAIM = ("Decides: the greek/subscript/superscript tables denote the right Unicode characters, HTML entities and LaTeX "
          "macros; each format function is wired to its own tables and markup; the charge token is magnitude-then-sign with 1 "
-         "omitted; renderer and parser agree on the count token; from_formula derives all four views from one formula.")
+         "omitted; renderer and parser agree on the count token; from_formula derives all four views from one formula."
+         ' Which formula part feeds which piece of the rendering; phase-index arms and defaults (R9). Shared rule A1: no swapped same-named arguments at resolved in-package call sites.')
 DOES_NOT_DECIDE = "the regex substitution on arbitrary formulas (needs generation); invertibility of the rendering"
 ASSUMPTIONS = ["unicodedata and html.entities of the running interpreter are correct reference tables"]
 
